@@ -309,5 +309,11 @@ pub fn regressions() -> Vec<(&'static str, QCase)> {
                 close: ClosePoint { when: When::During(100), what: What::Endpoint, by_client: false },
             },
         ),
+        (
+            // former false alarm of the harness (a reader inside its pacing sleep when the side was judged), found
+            // once closed() resolved without the drain period
+            "paced-reader-at-endpoint-close",
+            vcore::serde_json::from_str(include_str!("paced_reader_case.json")).expect("embedded regression case"),
+        ),
     ]
 }
